@@ -115,9 +115,9 @@ def shapes(thorough):
             for S in (0, 1):
                 for bi, bvar in enumerate(bvs):
                     if thorough:
-                        ys = (False, True) if (topo[4] and bi in (0, 1, 3)) else (bool(topo[4]) and bi % 2 == 1,)
+                        ys = (False, True) if (topo[4] and bi in (0, 3)) else (bool(topo[4]) and bi % 2 == 1,)
                         stores = (True, False) if bi in (0, 2) else (True,)
-                        spells = ('abs', 'rel') if (S == 0 and bi in (0, 1)) else ('abs',)
+                        spells = ('abs', 'rel') if (S == 0 and bi == 0) else (('rel',) if (S == 0 and bi == 1) else ('abs',))
                     else:
                         ys = ((bi % 2 == 1) and bool(topo[4]),)
                         stores = ((bi + S) % 4 != 3,)
